@@ -164,6 +164,13 @@ impl OrphanBlockPool {
         self.inner.read().leaders.iter().cloned().collect()
     }
 
+    /// verification-harness hook: membership as `get_block` sees it (both internal maps agree),
+    /// without needing the block to be present in a store.
+    #[cfg(feature = "verif-hooks")]
+    pub fn verif_contains(&self, hash: &packed::Byte32) -> bool {
+        self.inner.read().get_block(hash).is_some()
+    }
+
     #[cfg(test)]
     pub(crate) fn leaders_len(&self) -> usize {
         self.inner.read().leaders.len()
